@@ -661,7 +661,7 @@ impl Exec {
                 let v = self.w.blocks[*b].view.clone();
                 if self.sc.header_stage {
                     self.tick();
-                    let pass = if self.sc.header_path == 1 { self.peer_header_stage(*b) } else { self.header_stage(*b, &v) };
+                    let pass = if self.sc.header_path == 1 && !self.sc.miner_blocks.contains(b) { self.peer_header_stage(*b) } else { self.header_stage(*b, &v) };
                     if !pass {
                         self.eff_ops.pop();
                         return;
@@ -928,7 +928,7 @@ impl Exec {
         let mut msg: Vec<usize> = vec![b];
         if batching {
             let mut p = parent;
-            while p != 0 && state_of(self, p).is_none() && !chain_bad.contains(&p) && msg.len() < 1500 {
+            while p != 0 && state_of(self, p).is_none() && !chain_bad.contains(&p) && !self.delivered_set.contains(&p) && msg.len() < 1500 {
                 msg.push(p);
                 p = self.w.blocks[p].parent.unwrap();
             }
@@ -937,7 +937,7 @@ impl Exec {
                 self.res.probes.inc("peer_header_batch_announced");
                 self.res.probes.add("peer_header_batch_headers", msg.len() as u64);
             }
-        } else if self.sc.peer_style != 3 && parent != 0 && state_of(self, parent).is_none() && !chain_bad.contains(&parent) {
+        } else if self.sc.peer_style != 3 && parent != 0 && state_of(self, parent).is_none() && !chain_bad.contains(&parent) && !self.delivered_set.contains(&parent) {
             // a peer that announces one header per message, parents first: it has nothing to say yet
             self.res.probes.inc("peer_header_parent_unknown");
             self.res.probes.inc("peer_header_held_back");
@@ -994,7 +994,8 @@ impl Exec {
             let held_invalid = chain_bad.contains(&i) || matches!(before, Some(Ann::Marked(_)));
             // how the node must see the parent
             let parent_invalid = p != 0 && (chain_bad.contains(&p) || matches!(state_of(self, p), Some(Ann::Marked(_))));
-            let parent_known = p == 0 || state_of(self, p) == Some(Ann::Accepted);
+            // (a locally mined block is known from the store as soon as the chain service has taken it)
+            let parent_known = p == 0 || state_of(self, p) == Some(Ann::Accepted) || (self.sc.miner_blocks.contains(&p) && self.delivered_set.contains(&p));
             self.il.write_u64(0x4900 + seen.valid as u64);
             let what: String;
             if before == Some(Ann::Accepted) && !held_invalid {
